@@ -1,6 +1,7 @@
 package sim
 
 import (
+	"bytes"
 	"os"
 	"context"
 	"fmt"
@@ -156,6 +157,10 @@ type c08Instance struct {
 	sink   *host.Sink
 	err    error
 	done   bool
+	// multi-interpreter variant: what the interpreter's own standard streams
+	// received (every interpreter has its own Stdout, Stderr and Env)
+	stdout, stderr bytes.Buffer
+	ioErr          error
 }
 
 func drawInstance(tape *Tape) *c08Instance {
@@ -218,6 +223,17 @@ func RunC08(t *testing.T, tape *Tape) *Outcome {
 			in.sink = r.NewSink(4096, in.params)
 			r.SpawnRouted(fmt.Sprintf("h%d", i), in.sink, func() {
 				it := NewInterpFS(nil)
+				tag := fmt.Sprintf("inst%d", i)
+				if variant == c08MultiInt {
+					// interpreters running side by side keep their own standard
+					// streams and environment, whenever each was created and loaded
+					in.stdout.Reset()
+					in.stderr.Reset()
+					it = NewInterpOpt(interp.Options{Stdout: &in.stdout, Stderr: &in.stderr, Env: []string{"VERIF_INST=" + tag}})
+					if _, in.ioErr = it.Eval("import (\n\t\"fmt\"\n\t\"os\"\n)"); in.ioErr == nil {
+						_, in.ioErr = it.Eval("fmt.Println(\"pre\", os.Getenv(\"VERIF_INST\"))")
+					}
+				}
 				pkg := in.tpl.Name
 				switch variant {
 				case c08Exported:
@@ -240,6 +256,9 @@ func RunC08(t *testing.T, tape *Tape) *Outcome {
 						break
 					}
 					_, in.err = it.EvalWithContext(context.Background(), pkg+".Run()")
+				}
+				if variant == c08MultiInt && in.ioErr == nil {
+					_, in.ioErr = it.Eval("fmt.Printf(\"post %s\\n\", os.Getenv(\"VERIF_INST\"))")
 				}
 				in.done = true
 			})
@@ -276,6 +295,18 @@ func RunC08(t *testing.T, tape *Tape) *Outcome {
 			got := byTag(in.sink.Events())
 			if ok, diff := sameOutput(got, want); !ok {
 				o.addV("C08", "output", "output-mismatch tpl="+in.tpl.Name, "%s under %s: %s", descs[i], c08VariantName[variant], diff)
+			}
+			if variant == c08MultiInt {
+				tag := fmt.Sprintf("inst%d", i)
+				// (os.Stdout/os.Stderr themselves only follow Options when those are
+				// files: the fmt.Print family is what is redirected for any writer)
+				wantOut, wantErr := "pre "+tag+"\npost "+tag+"\n", ""
+				if in.ioErr != nil {
+					o.addV("C08", "no-error", "eval-error multi-interpreter-streams", "%s: %v", descs[i], in.ioErr)
+				} else if in.stdout.String() != wantOut || in.stderr.String() != wantErr {
+					o.addV("C08", "output", "interpreter-streams-mixed", "interpreter %d of %d (%s): its own Stdout received %q (want %q), its own Stderr %q (want %q)", i, len(insts), descs[i], in.stdout.String(), wantOut, in.stderr.String(), wantErr)
+				}
+				o.FaultFired["probe:interpreters-with-own-streams-side-by-side"]++
 			}
 		}
 	}
